@@ -217,7 +217,9 @@ PROPERTIES = {
                  "layout of the channel's ordering, reliability mode and parameter, and the UTF-8 label and protocol with their "
                  "byte lengths, for any Unicode label and protocol. _data_channel_receive, for a well-formed DATA_CHANNEL_OPEN on "
                  "an unused stream, registers a new channel with that id whose label, protocol, ordering and reliability settings "
-                 "are exactly the ones on the wire, in state 'open', whose first event is 'open'; RTCDataChannel.__init__ (remote "
+                 "are exactly the ones on the wire, in state 'open', whose first event is 'open'; for a DATA_CHANNEL_ACK it opens a "
+                 "channel that is still connecting and leaves any other state alone - readyState never moves backwards (F-25 found "
+                 "and fixed: an ACK after close() reopened the channel) - and adds no channel; RTCDataChannel.__init__ (remote "
                  "open) starts 'connecting' with zero amounts and no event. _data_channel_flush keeps every registered channel "
                  "registered, keeps the table 'id -> the channel carrying that id', numbers channels without an id with ids of "
                  "this end's parity that are not in use, only appends to event logs, and hands every message to the SCTP layer "
@@ -228,7 +230,7 @@ PROPERTIES = {
                  "closes the channel; _receive_reconfig_param, for a response that matches the outstanding request, closes and "
                  "unregisters that request's streams, retires the request, and - progress - leaves a new outstanding request "
                  "covering the streams still queued, so a close() issued while an earlier reset is in flight is not stranded. "
-                 "Reduced: id reuse after close, ACK handling, forward-only state at the call sites, the accounting across "
+                 "Reduced: id reuse after close, forward-only state at the remaining call sites of _setReadyState, the accounting across "
                  "send/flush, and close() end to end over both peers are not under contract.",
         "note": "emit() is modelled as appending the event name to a ghost list; the event-log postconditions assume listeners "
                 "do not re-enter, while the at_emit/after_emit obligations are exactly what makes re-entry harmless. "
@@ -241,8 +243,8 @@ PROPERTIES = {
         "design_ref": "DESIGN.md 4.13, 9",
         "trusted_base": COMMON + ["pyee emit(): listeners do not re-enter (event-log clauses only)",
                                   "assumed contracts: RTCSctpTransport._send, RTCSctpTransport._send_reconfig_param"],
-        "not_decided": ["id reuse after close; termination of _data_channel_flush's loops", "DATA_CHANNEL_ACK handling and forward-only readyState at the "
-                        "call sites (ACK after close)", "bufferedAmount accounting across _data_channel_send and _data_channel_flush",
+        "not_decided": ["id reuse after close; termination of _data_channel_flush's loops", "forward-only readyState at the call sites other than "
+                        "ACK/close (e.g. _set_state closing all channels)", "bufferedAmount accounting across _data_channel_send and _data_channel_flush",
                         "incoming stream reset (StreamResetOutgoingParam branch) and _data_channel_close",
                         "close() end to end across both peers"],
     },
